@@ -3,8 +3,10 @@
 package checks
 
 import (
+	"bytes"
 	"crypto/sha256"
 	"fmt"
+	"math"
 	"os"
 	"path/filepath"
 	"strings"
@@ -111,6 +113,31 @@ func c08Eval(t tb, c c08Case) {
 				what = "the exit status"
 			}
 			violation(t, "nondeterministic:"+what, fmt.Sprintf("run %d (environment variant %d, cwd variant %d) differs from run 0 in %s\n--- run 0 ---\n%s\n--- run %d ---\n%s", i, i%len(envs), i%2, what, tailLines(firstStdout, 14), i, tailLines(r.Stdout, 14)), c)
+			return
+		}
+	}
+	// Go randomises every single map iteration, and for a map of two entries the less likely order shows up in one
+	// iteration out of eight only: many more repetitions, in-process (same inputs, same patterns)
+	reps, size := 48, 0
+	for _, f := range files {
+		size += len(f.Content)
+	}
+	if size > 20<<10 {
+		reps = 4
+	}
+	var ref0 Outcome
+	for i := 0; i < reps; i++ {
+		o := runInprocAbs(dir, abs, sut.Flags{})
+		if i == 0 {
+			ref0 = o
+			continue
+		}
+		if o.Res.Exit != ref0.Res.Exit || o.Res.Stdout != ref0.Res.Stdout || !bytes.Equal(o.Out, ref0.Out) {
+			what := "the generated file"
+			if o.Res.Stdout != ref0.Res.Stdout {
+				what = "the printed report"
+			}
+			violation(t, "nondeterministic:"+what, fmt.Sprintf("in-process repetition %d differs from repetition 0 in %s\n--- repetition 0 ---\n%s\n--- repetition %d ---\n%s", i, what, tailLines(ref0.Res.Stdout, 14), i, tailLines(o.Res.Stdout, 14)), c)
 			return
 		}
 	}
@@ -230,7 +257,7 @@ func TestC08(t *testing.T) {
 	col := ev.Get()
 	runs := pick(10, 24)
 	perms := pick(3, 8)
-	col.Note(fmt.Sprintf("an order dependence on a 2-entry map escapes %d fresh processes with probability 2^-%d per site", runs, runs-1))
+	col.Note(fmt.Sprintf("Go starts the iteration of a small map at a random slot out of eight: a 2-entry order dependence shows its rarer order in 1 iteration of 8, so it escapes n repetitions with probability (7/8)^n per site; every document is run %d times as a fresh process and 48 times in-process: %.3f %%", runs, 100*math.Pow(7.0/8, float64(runs+47))))
 	var rc c08Case
 	if replayPayload(t, &rc) {
 		c08Eval(t, rc)
